@@ -48,9 +48,19 @@ class CombineOutputs(Operation):
             ):
                 continue
             copy_into = self._output_path / dep_id.name
-            relative_to_target = pathlib.Path(
-                os.path.relpath(dep_dir, copy_into.parent)
-            )
+            # A relative link is resolved against the directory that physically
+            # holds it. If this task's output directory is reached through a
+            # symbolic link (e.g., it was moved to another volume), the target
+            # must be computed between the resolved locations - otherwise the
+            # link dangles.
+            link_dir = copy_into.parent
+            real_link_dir = link_dir.resolve()
+            if real_link_dir != link_dir:
+                relative_to_target = pathlib.Path(
+                    os.path.relpath(dep_dir.resolve(), real_link_dir)
+                )
+            else:
+                relative_to_target = pathlib.Path(os.path.relpath(dep_dir, link_dir))
             # N.B. `exists()` follows symbolic links: a link whose target is gone
             # (e.g., an old version that was deleted by hand) must be replaced
             # too, so check for a link first.
